@@ -14,5 +14,4 @@ INVARIANT VerdictMonotone
 PROPERTY JoinPreserves
 PROPERTY UpdateOffsetsPreserves
 PROPERTY AppendAtEnd
-CONSTRAINT Bounded
 CHECK_DEADLOCK FALSE
